@@ -67,6 +67,25 @@ def enum_member(prog, modname, cls, name):
     return EnumMember(ci.key, name, const_value(ci.class_assigns[name]))
 
 
+class FnVal:
+    """a repository function used as a value (table of handlers, callback local)"""
+    def __init__(self, func):
+        self.func = func
+
+    def __repr__(self):
+        return f'<function {self.func.key}>'
+
+
+def _walk_own(fnode):
+    stack = list(ast.iter_child_nodes(fnode))
+    while stack:
+        n = stack.pop()
+        yield n
+        if isinstance(n, (ast.FunctionDef, ast.AsyncFunctionDef, ast.Lambda, ast.ClassDef)):
+            continue
+        stack.extend(ast.iter_child_nodes(n))
+
+
 class TensorEval:
     def __init__(self, prog, cls, seeds):
         if np is None:
@@ -75,9 +94,22 @@ class TensorEval:
         self.seeds = seeds            # normalised text -> value (object ndarray / Q / number)
         self.depth = 0
         self.summaries = {}           # function name -> callable(args, kwargs): trusted summary of a helper
+        self._yields = []
         self.numeric = False          # True: allocation functions give numeric arrays (comparison-only code interpreted on small concrete inputs)
 
     def run(self, f, bind):
+        if any(isinstance(n_, (ast.Yield, ast.YieldFrom)) for n_ in _walk_own(f.node)):
+            # a generator function, run eagerly: the list of what it yields (sound for generators that do not read state their
+            # consumer writes between two items; the ones met here enumerate index ranges)
+            self._yields.append([])
+            try:
+                self._run_body(f, bind)
+                return self._yields[-1]
+            finally:
+                self._yields.pop()
+        return self._run_body(f, bind)
+
+    def _run_body(self, f, bind):
         env = dict(bind)
         a_ = f.node.args
         pos = a_.posonlyargs + a_.args
@@ -92,6 +124,11 @@ class TensorEval:
 
     def block(self, f, stmts, env):
         for st in stmts:
+            if isinstance(st, ast.Expr) and isinstance(st.value, ast.Yield):
+                if not self._yields:
+                    raise Unknown('yield outside a generator run')
+                self._yields[-1].append(self.ev(f, st.value.value, env) if st.value.value is not None else None)
+                continue
             if isinstance(st, ast.Expr):
                 c = st.value
                 if isinstance(c, ast.Call) and isinstance(c.func, ast.Attribute) and c.func.attr in ('append', 'extend') and isinstance(c.func.value, ast.Name) \
@@ -268,7 +305,17 @@ class TensorEval:
         if isinstance(e, ast.Name):
             if t in ('None',):
                 return None
+            if t in self.PYTYPES and self.numeric:
+                return self.PYTYPES[t]
+            r_ = self.prog.resolve(f.mod, e) if self.prog is not None else None
+            if r_ is not None and r_[0] == 'func':
+                return FnVal(r_[1])
+            node_ = f.mod.assigns.get(e.id) if hasattr(f.mod, 'assigns') else None
+            if isinstance(node_, (ast.Dict, ast.List, ast.Tuple, ast.Constant)):
+                return self.ev(f, node_, {})          # a module-level literal table (handlers by enum member, sizes, names)
             raise Unknown(f'name {e.id}')
+        if isinstance(e, ast.Dict) and all(k is not None for k in e.keys):
+            return {self.ev(f, k, env): self.ev(f, v, env) for k, v in zip(e.keys, e.values)}
         if isinstance(e, ast.Tuple):
             return tuple(self.ev(f, x, env) for x in e.elts)
         if isinstance(e, ast.List):
@@ -323,6 +370,12 @@ class TensorEval:
                 return (l == r) if isinstance(e.ops[0], ast.Is) else (l != r)
             if isinstance(e.ops[0], (ast.Is, ast.IsNot, ast.Eq, ast.NotEq)) and isinstance(l, EnumMember) and isinstance(r, EnumMember):
                 return (l is r) if isinstance(e.ops[0], (ast.Is, ast.Eq)) else (l is not r)
+            if isinstance(e.ops[0], (ast.Eq, ast.NotEq)) and isinstance(l, (tuple, list)) and isinstance(r, (tuple, list)) \
+                    and all(isinstance(x, (int, np.integer)) for x in list(l) + list(r)):
+                same_ = type(l) is type(r) and [int(x) for x in l] == [int(x) for x in r]      # shapes and index lists
+                return same_ if isinstance(e.ops[0], ast.Eq) else not same_
+            if isinstance(e.ops[0], (ast.Is, ast.IsNot)) and isinstance(l, type) and isinstance(r, type):
+                return (l is r) if isinstance(e.ops[0], ast.Is) else (l is not r)
             if isinstance(e.ops[0], (ast.Is, ast.IsNot)) and (l is None or r is None):
                 same = l is r
                 return same if isinstance(e.ops[0], ast.Is) else not same
@@ -372,9 +425,9 @@ class TensorEval:
             if e.attr == 'T':
                 return self.ev(f, e.value, env).T
             if e.attr == 'shape':
-                return self.ev(f, e.value, env).shape
+                return np.shape(self.ev(f, e.value, env)) if not isinstance(self.ev(f, e.value, env), Q) else ()
             if e.attr == 'ndim':
-                return self.ev(f, e.value, env).ndim
+                return np.ndim(self.ev(f, e.value, env)) if not isinstance(self.ev(f, e.value, env), Q) else 0
             if e.attr == 'newaxis':
                 return None
             if e.attr in ('dtype', 'itemsize'):
@@ -454,6 +507,30 @@ class TensorEval:
                 raise Unknown('isinstance of a symbolic value')
             return isinstance(v_, tuple(types))
         args = [self.ev(f, a, env) for a in e.args]
+        if isinstance(fn, ast.Name) and isinstance(env.get(fn.id), FnVal) and self.depth < 4:
+            g = env[fn.id].func
+            ps = [x for x in g.params]
+            bind = dict(zip(ps, args))
+            bind.update(kw)
+            self.depth += 1
+            try:
+                return self.run(g, bind)
+            finally:
+                self.depth -= 1
+        if isinstance(fn, ast.Attribute) and fn.attr == 'get' and 1 <= len(args) <= 2 and not isinstance(fn.value, ast.Constant):
+            try:
+                recv_ = self.ev(f, fn.value, env)
+            except Unknown:
+                recv_ = None
+            if isinstance(recv_, dict):
+                try:
+                    return recv_.get(args[0], args[1] if len(args) > 1 else None)
+                except TypeError:
+                    raise Unknown('unhashable dictionary key')
+        if isinstance(fn, ast.Name) and fn.id == 'type' and fn.id not in env and len(args) == 1 and self.numeric:
+            if isinstance(args[0], (Q, EnumMember, FnVal)) or (isinstance(args[0], np.ndarray) and args[0].dtype == object):
+                raise Unknown('type of a symbolic value')
+            return type(args[0])
         if isinstance(fn, ast.Name) and fn.id == 'slice' and fn.id not in env and all(a is None or isinstance(a, (int, np.integer)) for a in args) and 1 <= len(args) <= 3:
             return slice(*[None if a is None else int(a) for a in args])
         if isinstance(fn, ast.Name) and fn.id == 'range' and all(isinstance(a, (int, np.integer)) for a in args):
